@@ -879,6 +879,10 @@ fn run_bld(ws: &[&str]) -> Option<(String, Vec<String>)> {
             if maxper > limit {
                 t3.push(("C02", format!("{maxper} connections in progress on one worker, max_concurrent_connections is {limit} (builder calls: {})", kv(ws, "calls").unwrap_or(""))));
             }
+            if !big && started < workers * limit {
+                // (n ≥ workers × limit clients are held open: every slot must be taken)
+                t3.push(("C03", format!("max_concurrent_connections is {limit} on each of {workers} worker(s) and {n} clients are waiting, yet only {started} connections were dispatched: spare capacity is not used (builder calls: {})", kv(ws, "calls").unwrap_or(""))));
+            }
             if big && started < n {
                 for p in ["C03", "C02"] {
                     t3.push((p, format!("max_concurrent_connections is {limit}, yet only {started} of {n} waiting connections were dispatched to the {workers} worker(s): spare capacity is not used")));
@@ -1968,6 +1972,10 @@ fn gen(a: &Args) {
             writeln!(w, "bld workers=1 limit=2147483648 n=2 calls=workers,limit").unwrap();
             writeln!(w, "bld workers=1 limit=8589934594 n=6 calls=workers,maxconn").unwrap();
         }
+        // the limit is not disturbed by the other builder options, whatever their values and order (seed15 C03-30 stored
+        // `worker_max_blocking_threads` into the connection limit)
+        writeln!(w, "bld workers=1 limit=3 n=5 calls=limit,blocking:1,workers").unwrap();
+        writeln!(w, "bld workers=2 limit=2 n=6 calls=workers,limit,backlog:1,timeout:1,blocking:1").unwrap();
         writeln!(w, "bld workers=1 limit=18446744073709551616 n=3 calls=workers,limit").unwrap();
         writeln!(w, "bld workers=1 limit=17 n=20 calls=workers,limit").unwrap();
     }
